@@ -304,9 +304,21 @@ def rule_take(ctx):
         ctx.holds('R1', 'Dataset._getitem = take (behind .ix/.loc/.sel/.isel)')
 
 
+def _is_dim_name(t):
+    """a term that denotes a dimension *name* (not a position that depends on who interprets it)"""
+    if t[0] == 'attr' and t[2] == 'name':
+        return True
+    if t[0] == 'item' and t[1][0] == 'call' and T.call_name(t[1]) == '_get_axis_info' and t[2] == 1:
+        return True
+    return False
+
+
 def rule_reindex(ctx):
+    """R6: Dataset.reindex_axis against its sibling DimArray.reindex_axis (the per-variable reference): same lookup call (so `method` means the
+    same), same mismatch mask, raise_error raises, relabel, and a per-variable fill addressed by dimension *name*"""
     ctx.rule('R6', 'Dataset.reindex_axis twin of DimArray.reindex_axis', 1)
     fi = ctx.fn(DS + 'reindex_axis')
+    fd = ctx.fn('dimarray.core.align.reindex_axis')
     VALUES, AXIS, FILL, METHOD, RAISE = P_('values'), P_('axis'), P_('fill_value'), P_('method'), P_('raise_error')
 
     def oracle(atom, st):
@@ -314,75 +326,127 @@ def rule_reindex(ctx):
             return False
         if atom[0] == 'call' and T.call_name(atom) == 'isscalar':
             return False
-        if atom[0] == 'cmp' and atom[1] == 'is' and atom[3] == ('name', 'slice'):
+        if atom[0] == 'cmp' and atom[1] == 'is' and atom[2][0] == 'call' and T.dotted(atom[2][1]) == 'type' and atom[3] == ('name', 'slice'):
             return False
         return None
     ev = run(ctx, fi, oracle=oracle, mode='join')
+    evd = run(ctx, fd, oracle=oracle, mode='join')
     newvals = ('call', ('attr', ('name', 'np'), 'asarray'), (VALUES,), ())
     okk = True
     rets = ret_paths(ev)
     ctx.require('R6', rets, 'Dataset.reindex_axis has no returning path')
     p = rets[-1]
-    ta = [e.a for e in p.calls('take_axis')]
-    if len(ta) != 1 or ta[0][2][:1] != (newvals,) or T.kw(ta[0], 'axis') != AXIS or T.kw(ta[0], 'indexing') != const('label'):
-        ctx.violated('R3', fi, 'take_axis', "the new labels are looked up with take_axis(values, axis=axis, indexing='label', ...)", node=p.node)
+    # --- the reference lookup of the sibling
+    ref = [e.a for q in evd.paths for e in q.calls('locate_many')]
+    if not ref:
+        ctx.undecide('R6', 'DimArray.reindex_axis no longer locates with locate_many: the sibling reference changed')
+        return
+    ref_side = T.kw(ref[0], 'side')
+    lm = [e.a for e in p.calls('locate_many')]
+    if len(lm) != 1:
+        ctx.violated('R6', fi, 'label lookup', 'DimArray.reindex_axis locates the new labels with locate_many(axis values, values, side=method or \'left\'); Dataset.reindex_axis '
+                     'does not use that lookup, so method=\'right\' selects other elements than on each variable', node=p.node)
         okk = False
+        indices = None
     else:
-        mode = T.kw(ta[0], 'mode')
-        if mode != ('ifexp', RAISE, const('raise'), const('clip')):
-            ctx.violated('R6', fi, T.show(ta[0])[:140], "raise_error=True must make the lookup raise (mode='raise'), otherwise missing labels are clipped and then filled", node=p.node)
+        c = lm[0]
+        src = c[2][0] if c[2] else None
+        if not (src is not None and src[0] == 'attr' and src[2] in ('values', '_values') and T.contains(src, SELF) and T.contains(src, AXIS)):
+            ctx.violated('R6', fi, 'lookup source', 'the labels must be located in the values of the dataset axis designated by `axis`, got %s' % (T.show(src)[:80] if src else None), node=p.node)
             okk = False
-        ctx.holds('R3', 'reindex_axis passes labels with indexing=label')
-        ctx.holds('R5', 'reindex_axis keeps attrs (through take_axis)')
+        if c[2][1:2] != (newvals,):
+            ctx.violated('R6', fi, 'lookup labels', 'the requested labels (np.asarray(values)) must be what is located', node=p.node)
+            okk = False
+        if T.kw(c, 'side') != ref_side:
+            ctx.violated('R6', fi, 'lookup side', 'DimArray.reindex_axis passes side=%s, Dataset.reindex_axis passes %s' % (T.show(ref_side), T.show(T.kw(c, 'side')) if T.kw(c, 'side') else 'nothing'), node=p.node)
+            okk = False
+        indices = c
+    ta = [e.a for e in p.calls('take_axis')]
+    if indices is not None:
+        if len(ta) != 1 or ta[0][2][:1] != (indices,) or T.kw(ta[0], 'indexing') != const('position') or T.call_receiver(ta[0]) != SELF:
+            ctx.violated('R3', fi, 'take_axis', "the located positions are taken with self.take_axis(indices, axis=..., indexing='position')", node=p.node)
+            okk = False
+        else:
+            ax_arg = T.kw(ta[0], 'axis')
+            if not (ax_arg == AXIS or (ax_arg is not None and (_is_dim_name(ax_arg) or (ax_arg[0] == 'item' and T.contains(ax_arg, AXIS))))):
+                ctx.violated('R3', fi, 'take_axis axis', 'take_axis must act on the dimension designated by `axis`', node=p.node)
+                okk = False
+            ctx.holds('R3', 'reindex_axis takes located positions with indexing=position')
+            ctx.holds('R5', 'reindex_axis keeps attrs (through take_axis)')
+    if ta:
         ds = ta[0]
-        newax = ('sub', ('attr', ds, 'axes'), AXIS)
-        mask = T.mkcmp('!=', ('attr', newax, 'values'), newvals)
+        src = indices[2][0] if indices is not None else None
+        masks = []
+        if src is not None:
+            masks.append(T.mkcmp('!=', ('call', ('attr', src, 'take'), (indices,), ()), newvals))
+        for e in p.events:
+            if e.kind == 'call' and T.call_name(e.a) == 'put' and e.a[2]:
+                m = e.a[2][0]
+                if m[0] == 'cmp' and m[1] == '!=' and newvals in (m[2], m[3]):
+                    other = m[3] if m[2] == newvals else m[2]
+                    if other[0] == 'attr' and other[2] == 'values' and T.contains(other, ds):
+                        masks.append(m)              # labels of the taken axis against the requested labels
         puts = [e for e in p.calls('put')]
-        rel = [e for e in p.events if e.kind == 'store_sub' and not (e.c[0] == 'sub' and e.c[1] == SELF) and e.a[0] == 'sub' and e.a[2] == AXIS]
+        rel = [e for e in p.events if e.kind == 'store_sub' and not (e.c[0] == 'sub' and e.c[1] == SELF) and e.a[0] == 'sub' and T.contains(e.a, ds)]
+        # raise_error
+        rz = [q for q in raise_paths(ev) if exc_name(q.value) == 'IndexError' and any(a == RAISE and pol is True for a, pol in q.guards)]
+        rz_ok = bool(rz) or any(T.kw(c, 'mode') == ('ifexp', RAISE, const('raise'), const('clip')) for c in ta)
+        if not rz_ok:
+            ctx.violated('R6', fi, 'raise_error', 'raise_error=True must raise IndexError when a requested label is missing', node=p.node)
+            okk = False
         if len(puts) != 1:
             ctx.violated('R6', fi, 'fill loop', 'missing labels must be filled variable by variable', node=p.node)
             okk = False
         else:
             e = puts[0]
             c = e.a
-            want = {'axis': AXIS, 'inplace': T.CONST_TRUE, 'indexing': const('position'), 'cast': T.CONST_TRUE}
+            want = {'inplace': T.CONST_TRUE, 'indexing': const('position'), 'cast': T.CONST_TRUE}
             got = dict(c[3])
             bad = [k for k, v in want.items() if got.get(k) != v]
             recv = T.call_receiver(c)
-            if c[2][:1] != (mask,) and not (c[2] and T.show(c[2][0]) == T.show(mask)):
+            if not c[2] or not any(c[2][0] == m or T.show(c[2][0]) == T.show(m) for m in masks):
                 bad.append('mask')
             if c[2][1:2] != (FILL,):
                 bad.append('fill_value')
             if bad:
-                ctx.violated('R6', fi, e.node, 'the fill must be put(mask, fill_value, axis=axis, inplace=True, indexing=\'position\', cast=True) like in DimArray.reindex_axis '
+                ctx.violated('R6', fi, 'fill call', 'the fill must be put(mask, fill_value, axis=<name>, inplace=True, indexing=\'position\', cast=True) like in DimArray.reindex_axis '
                              '(wrong/missing: %s)' % bad, node=e.node)
                 okk = False
+            ax_arg = got.get('axis')
+            if ax_arg is None or not _is_dim_name(ax_arg):
+                ctx.violated('R6', fi, 'fill axis', 'the per-variable fill is addressed with axis=%s: an integer position given to Dataset.reindex_axis refers to the dataset\'s '
+                             'dimension order, but each variable interprets it against its own dims, so the fill value lands on another dimension of variables whose '
+                             'dimension order differs (the dimension name must be passed)' % (T.show(ax_arg) if ax_arg else None), node=e.node)
+                okk = False
             if not (recv[0] == 'sub' and strip(recv[1]) == ds and e.loops):
-                ctx.violated('R6', fi, e.node, 'the in-place fill acts on the variables of the fresh result', node=e.node)
+                ctx.violated('R6', fi, 'fill receiver', 'the in-place fill acts on the variables of the fresh result', node=e.node)
                 okk = False
             k = recv[2] if recv[0] == 'sub' else None
-            has = [pol for a, pol in e.guards if a[0] == 'cmp' and a[1] == 'in' and 'dims' in T.show(a[3]) and 'name' in T.show(a[2])]
-            if not has or has[-1] is not True:
-                ctx.violated('R2', fi, e.node, 'the fill loop applies put(..., axis=axis) to every variable: variables that do not have the reindexed dimension must be '
+            has = [(a, pol) for a, pol in e.guards if a[0] == 'cmp' and a[1] == 'in' and 'dims' in T.show(a[3]) and _is_dim_name(a[2])]
+            if not has or has[-1][1] is not True:
+                ctx.violated('R2', fi, 'fill loop guard', 'the fill loop applies put(..., axis=...) to every variable: variables that do not have the reindexed dimension must be '
                              'skipped (ValueError otherwise)', node=e.node)
                 okk = False
             else:
-                g = [a for a, pol in e.guards if a[0] == 'cmp' and a[1] == 'in' and 'dims' in T.show(a[3])][-1]
+                g = has[-1][0]
                 if not (g[3][0] == 'attr' and g[3][1][0] == 'sub' and g[3][1][2] == k):
-                    ctx.violated('R2', fi, e.node, 'the has-dimension test must look at the dims of the variable being filled (dataset[k].dims); testing the dataset\'s own '
+                    ctx.violated('R2', fi, 'fill loop guard', 'the has-dimension test must look at the dims of the variable being filled (dataset[k].dims); testing the dataset\'s own '
                                  'dims is always true', node=e.node)
                     okk = False
                 else:
                     ctx.holds('R2', 'reindex_axis fill loop skips variables lacking the dimension')
             mn = [pol for a, pol in e.guards if a == T.mkcmp('is', METHOD, T.CONST_NONE)]
             if mn != [True]:
-                ctx.violated('R6', fi, e.node, 'fill only when method is None', node=e.node)
+                ctx.violated('R6', fi, 'fill method guard', 'fill only when method is None', node=e.node)
                 okk = False
-        if len(rel) != 1 or rel[0].b != mask and T.show(rel[0].b) != T.show(mask):
-            ctx.violated('R6', fi, 'relabel', 'the dataset axis must be relabelled with the requested labels where they were missing (dataset.axes[axis][mask] = values[mask])', node=p.node)
+        if len(rel) != 1 or not any(rel[0].b == m or T.show(rel[0].b) == T.show(m) for m in masks):
+            ctx.violated('R6', fi, 'relabel', 'the dataset axis must be relabelled with the requested labels where they were missing (dataset.axes[...][mask] = values[mask])', node=p.node)
             okk = False
+    elif indices is None:
+        ctx.violated('R6', fi, 'take step', 'Dataset.reindex_axis no longer takes along the axis', node=p.node)
+        okk = False
     if okk:
-        ctx.holds('R6', 'Dataset.reindex_axis: lookup(label, raise|clip) -> mask -> relabel -> per-variable fill(cast=True)')
+        ctx.holds('R6', 'Dataset.reindex_axis: locate_many(side=method or left) -> take(position) -> mask -> raise | relabel -> per-variable fill by name (cast=True)')
     for k in ('fill_value', 'raise_error', 'method'):
         a = default_of(fi, k)
         b = default_of(ctx.fn('dimarray.core.align.reindex_axis'), k)
